@@ -195,6 +195,9 @@ func checkCase(c Case, rec *evid.Rec) (err error) {
 		var r srch.Result
 		if c.UCI {
 			cmd := "position fen " + c.FEN
+			if c.FEN == gen.StartFEN {
+				cmd = "position startpos"
+			}
 			if len(played) > 0 {
 				cmd += " moves " + strings.Join(played, " ")
 			}
@@ -382,7 +385,7 @@ func TestC07(t *testing.T) {
 				c.Steps[i].Depth = min(c.Steps[i].Depth, 7)
 				c.Steps[i].Nodes = gen.Draw(t, 50, 20000, "nodes")
 			}
-			if c.Before = gen.EarlierPositions(t, c.FEN, false, c.Moves); len(c.Before) > 0 {
+			if c.Before = gen.EarlierPositions(t, c.FEN, c.FEN == gen.StartFEN, c.Moves); len(c.Before) > 0 {
 				rec.Class("uci_earlier_position_commands")
 			}
 			if rec.WantSample("uci") {
